@@ -675,9 +675,10 @@ def check_C07(P, tier, SA, holder):
             continue
         ee = e.expand()
         R.add(RS.units_ob(U, "R-UNITS", site_l, "layer matrix entry %s" % nm, ee, want_m[(r, c)]))
-        R.add(eq_ob("R-SIGMA", site_l, "layer matrix entry %s is invariant under the exchange of the x and y roles" % nm, ee.subs(sig), ee, "S-PDE is symmetric under (x,u,Kx)<->(y,v,Ky)"))
+        if RS.DEFAULT_CLAMP[0] == RS.DEFAULT_CLAMP[1]:
+            R.add(eq_ob("R-SIGMA", site_l, "layer matrix entry %s is invariant under the exchange of the x and y roles" % nm, ee.subs(sig), ee, "S-PDE is symmetric under (x,u,Kx)<->(y,v,Ky)"))
         for ax in ("x", "y"):
-            R.add(eq_ob("R-MIRROR", site_l, "layer matrix entry %s is even under (k_%s, wind_%s) -> -(k_%s, wind_%s)" % (nm, ax, ax, ax, ax), ee.subs(RS.mirror_map(S, ee, ax)), ee))
+            R.add(eq_ob("R-MIRROR", site_l, "layer matrix entry %s is even under (k_%s, wind_%s) -> -(k_%s, wind_%s)" % (nm, ax, ax, ax, ax), ee.subs(RS.mirror_map(S, ee, ax, d0)), ee))
     for fp in (False, True):
         for an in (False, True):
             for ctx in ("generic", "mean"):
@@ -700,13 +701,15 @@ def check_C07(P, tier, SA, holder):
                         else:
                             R.add(RS.units_ob(U, "R-UNITS", site, "%s coefficient" % nm, c, want))
                         cn = RS.neutralise_source(c, S)
-                        R.add(eq_ob("R-SIGMA", site, "%s coefficient is invariant under the exchange of the x and y roles" % nm, cn.subs(sig), cn, key={"out": nm}))
+                        cs_ = v.clamp_state()
+                        if cs_[0] == cs_[1]:
+                            R.add(eq_ob("R-SIGMA", site, "%s coefficient is invariant under the exchange of the x and y roles" % nm, cn.subs(sig), cn, key={"out": nm}))
     # mirror of the transfer function (unshifted dispersion)
     for nm in ("flx", "conc"):
         c = RS.neutralise_source(d0.coeff(nm), S)
         if isinstance(c, Expr):
             for ax in ("x", "y"):
-                R.add(eq_ob("R-MIRROR", d0.site("transfer function"), "%s transfer function is even under (k_%s, wind_%s) -> -(k_%s, wind_%s)" % (nm, ax, ax, ax, ax), c.subs(RS.mirror_map(S, c, ax)), c))
+                R.add(eq_ob("R-MIRROR", d0.site("transfer function"), "%s transfer function is even under (k_%s, wind_%s) -> -(k_%s, wind_%s)" % (nm, ax, ax, ax, ax), c.subs(RS.mirror_map(S, c, ax, d0)), c))
     # footprint mode: mirror/translation of the tower needs the Green's function registered at exactly the cropped cells
     obs_r, _f, _d = registration_obligations(SA, "given", "R-MIRROR", "R-MIRROR")
     R.add(obs_r)
